@@ -9,6 +9,7 @@ import (
 	"fmt"
 	"io"
 	"net"
+	"sync"
 	"sync/atomic"
 	"testing"
 	"time"
@@ -23,12 +24,17 @@ import (
 const P = "C11"
 
 // scriptConn is a net.Conn whose reads deliver a scripted byte stream in
-// scripted segments and then fail (connection cut); writes are recorded.
+// scripted segments and then fail (connection cut); writes are recorded until the
+// connection is closed (Close keeps what was written; a Write after it fails, as on a socket).
+// The write side may be used from a goroutine of the transport's own.
 type scriptConn struct {
-	segs    [][]byte // remaining read segments
-	endErr  error    // what Read returns after the last segment
+	segs   [][]byte // remaining read segments
+	endErr error    // what Read returns after the last segment
+
+	wmu     sync.Mutex
 	written []byte
 	writes  int
+	closed  bool
 }
 
 func (c *scriptConn) Read(p []byte) (int, error) {
@@ -46,11 +52,32 @@ func (c *scriptConn) Read(p []byte) (int, error) {
 	return n, nil
 }
 func (c *scriptConn) Write(p []byte) (int, error) {
+	c.wmu.Lock()
+	defer c.wmu.Unlock()
+	if c.closed {
+		return 0, net.ErrClosed
+	}
 	c.written = append(c.written, p...)
 	c.writes++
 	return len(p), nil
 }
-func (c *scriptConn) Close() error                     { return nil }
+func (c *scriptConn) Close() error {
+	c.wmu.Lock()
+	defer c.wmu.Unlock()
+	c.closed = true
+	return nil
+}
+
+// sentThrough is what the connection holds of the Sends made through tr. Send returning does not
+// have to mean that the frame is in the connection already (a transport may hand it to a writer of
+// its own); the transport's Close is where it has to be: tr is closed first, then the bytes written
+// up to that point are read.
+func (c *scriptConn) sentThrough(tr *nbt.NBTTransport) []byte {
+	tr.Close()
+	c.wmu.Lock()
+	defer c.wmu.Unlock()
+	return append([]byte{}, c.written...)
+}
 func (c *scriptConn) LocalAddr() net.Addr              { return &net.TCPAddr{} }
 func (c *scriptConn) RemoteAddr() net.Addr             { return &net.TCPAddr{} }
 func (c *scriptConn) SetDeadline(time.Time) error      { return nil }
@@ -85,13 +112,16 @@ func checkSend(c sendCase) []vf.Finding {
 	conn := &scriptConn{}
 	tr := nbt.NewNBTTransportFromConn(conn)
 	p := payload(c.Len, c.Salt)
+	// the refusal of a payload that cannot be framed is Send's own error; what is in the connection is
+	// looked at once the transport has been closed
 	_, err := tr.Send(append([]byte{}, p...))
+	written := conn.sentThrough(tr)
 	if c.Len > maxFrame {
 		if err == nil {
-			return []vf.Finding{vf.F("NBTTransport.Send", "oversize-payload-not-refused", "len %d: no error, wrote %d bytes starting %x", c.Len, len(conn.written), conn.written[:min(4, len(conn.written))])}
+			return []vf.Finding{vf.F("NBTTransport.Send", "oversize-payload-not-refused", "len %d: no error, wrote %d bytes starting %x", c.Len, len(written), written[:min(4, len(written))])}
 		}
-		if len(conn.written) != 0 {
-			return []vf.Finding{vf.F("NBTTransport.Send", "oversize-payload-partly-written", "len %d: error %v but %d bytes written", c.Len, err, len(conn.written))}
+		if len(written) != 0 {
+			return []vf.Finding{vf.F("NBTTransport.Send", "oversize-payload-partly-written", "len %d: error %v but %d bytes written", c.Len, err, len(written))}
 		}
 		return nil
 	}
@@ -99,12 +129,12 @@ func checkSend(c sendCase) []vf.Finding {
 		return []vf.Finding{vf.F("NBTTransport.Send", "frameable-payload-refused", "len %d: %v", c.Len, err)}
 	}
 	want := refFrame(p)
-	if !bytes.Equal(conn.written, want) {
+	if !bytes.Equal(written, want) {
 		kind := "frame-differs-from-rfc1002"
-		if len(conn.written) >= 4 && !bytes.Equal(conn.written[:4], want[:4]) {
+		if len(written) >= 4 && !bytes.Equal(written[:4], want[:4]) {
 			kind = "header-differs-from-rfc1002"
 		}
-		return []vf.Finding{vf.F("NBTTransport.Send", kind, "len %d (%#x): header %x want %x, %d bytes written want %d", c.Len, c.Len, conn.written[:min(4, len(conn.written))], want[:4], len(conn.written), len(want))}
+		return []vf.Finding{vf.F("NBTTransport.Send", kind, "len %d (%#x): header %x want %x, %d bytes written want %d", c.Len, c.Len, written[:min(4, len(written))], want[:4], len(written), len(want))}
 	}
 	return nil
 }
@@ -371,9 +401,9 @@ func checkEndToEnd(c e2eCase) []vf.Finding {
 		}
 		sent = append(sent, p)
 	}
-	// deliver in 1000-byte segments
+	// what the closed sender has put into the connection, delivered in 1000-byte segments
 	var segs [][]byte
-	for rest := w.written; len(rest) > 0; {
+	for rest := w.sentThrough(sender); len(rest) > 0; {
 		k := min(1000, len(rest))
 		segs = append(segs, rest[:k])
 		rest = rest[k:]
@@ -438,8 +468,10 @@ func TestLoopbackTCP(t *testing.T) {
 				ch <- res{nil, err}
 				return
 			}
-			defer conn.Close()
 			srv := nbt.NewNBTTransportFromConn(conn)
+			// closed through the transport (the echo may still be with it when Send returns), then the socket
+			defer conn.Close()
+			defer srv.Close()
 			got, err := srv.Receive()
 			if err == nil {
 				_, err = srv.Send(got) // echo
